@@ -1,5 +1,9 @@
 """C11 — RREL reference resolution follows the documented expression semantics.
 
+Modes "find" / "grammar" / "reg": one query.  Mode "multi" (see `gen_multi_case`): sessions —
+one provider object answering many references (different match rules / name delimiters, target
+classes, models loaded one after the other with the same meta-model).
+
 Implementation side: `textx.scoping.rrel.find` on a loaded model (mode "find"),
 a complete model load with the RREL expression written in the grammar (mode
 "grammar") or registered as scope provider string (mode "reg"), on generated
@@ -91,8 +95,15 @@ def render_body(n, ind):
     if n.get("rs"):
         out.append(pad + "rs " + " ".join(str(t) for t in n["rs"]) + "\n")
     for r in n.get("refs") or []:
-        out.append(pad + "ref " + r["text"] + "\n")
+        if "texts" in r:  # mode "multi": keyword of the kind / alternative, names, terminator
+            out.append(pad + ref_keyword(r) + " " + ", ".join(r["texts"]) + " ;\n")
+        else:
+            out.append(pad + "ref " + r["text"] + "\n")
     return "".join(out)
+
+
+def ref_keyword(r):
+    return ("ref" if r.get("alt", 0) == 0 else "alt") + str(r["kind"])
 
 
 def render_item(n, ind):
@@ -462,8 +473,8 @@ class HeapMismatch(Exception):
     pass
 
 
-def check_heap(case, model, mm, others):
-    want = model_heap(case["heap"], case.get("extra"))
+def check_heap(case, model, mm, others, heap=None):
+    want = model_heap(case["heap"] if heap is None else heap, case.get("extra"))
     want.pop("extra_roots")
     got = real_heap(model, mm, others)
     if want != got:
@@ -472,7 +483,25 @@ def check_heap(case, model, mm, others):
                 raise HeapMismatch(f"{k}: described {want[k]} loaded {got[k]}")
 
 
+def describe(res_obj, path, allobjs, proxy=None):
+    """a resolved reference as numbers: target, proxy path, and what attribute access reaches"""
+    num = {id(o): i for i, o in enumerate(allobjs)}
+    d = {"res": "found", "obj": num.get(id(res_obj), -1),
+         "path": None if path is None else [num.get(id(p), -1) for p in path]}
+    if proxy is not None:
+        # the object that attribute access through the proxy denotes: the owner of the
+        # list object `proxy.a` (every Item / Model has its own list; None: no such attribute)
+        try:
+            lst = proxy.a
+            d["fwd"] = next((i for i, o in enumerate(allobjs) if getattr(o, "a", None) is lst), -1)
+        except AttributeError:
+            d["fwd"] = None
+    return d
+
+
 def run_case(case):
+    if case["mode"] == "multi":
+        return run_multi(case)
     use_repo()
     from textx.exceptions import TextXError, TextXSemanticError
     from textx.scoping import Postponed
@@ -489,18 +518,7 @@ def run_case(case):
 
     def found(res_obj, path, model, proxy=None):
         allobjs = model_objects(model) + [o for m in others for o in model_objects(m)]
-        num = {id(o): i for i, o in enumerate(allobjs)}
-        d = {"res": "found", "obj": num.get(id(res_obj), -1),
-             "path": None if path is None else [num.get(id(p), -1) for p in path]}
-        if proxy is not None:
-            # the object that attribute access through the proxy denotes: the owner of the
-            # list object `proxy.a` (every Item / Model has its own list; None: no such attribute)
-            try:
-                lst = proxy.a
-                d["fwd"] = next((i for i, o in enumerate(allobjs) if getattr(o, "a", None) is lst), -1)
-            except AttributeError:
-                d["fwd"] = None
-        return d
+        return describe(res_obj, path, allobjs, proxy)
 
     try:
         if mode == "find":
@@ -1009,9 +1027,414 @@ def gen_proxy_case(rng, mode=None):
 
 
 # --------------------------------------------------------------------------
+# histories: one provider object, many references (mode "multi").
+# "For any RREL expression in a grammar or scope-provider registration and any model": an
+# expression written in a grammar or registered for a pattern becomes ONE provider object that
+# lives as long as the meta-model and answers every reference it covers — references of
+# different rules, with different match rules (name delimiters: rule parameter `split`, default
+# '.'), different target classes, single and list valued, in every model loaded with that
+# meta-model.  Dimensions generated here:
+#   * 2..3 match rules FQNi with `split` none / '.' / '/' / '::' (all accept every separator);
+#   * 1..3 reference rules Rk ("kinds"): attribute name, target class, single / list valued,
+#     one or two places where the attribute is assigned (different match rules), RREL written in
+#     the grammar or left to the registration;
+#   * registrations "*.attr", "Rk.attr", "Rk.*", "*.*", overlapping ones (the more specific wins),
+#     as RREL string, as provider object made from a string or from a parsed tree — one object
+#     possibly registered for several patterns —, with or without an explicit split_string;
+#   * 1..3 models loaded one after the other with the same meta-model, 1..4 reference objects
+#     each, the names chosen so that they (mostly) resolve and have several parts.
+# Observed per model: every reference's target / proxy path, or which reference was reported
+# unknown.  case = {"mode":"multi","rules":[{"split"}],"kinds":[{"attr","cls","many","alts":[rule..],
+# "rrel":expr|None}],"provs":[{"expr","how":"str"|"obj"|"tree","split"}],"reg":[[pattern, prov]],
+# "models":[heap..]}; a Ref node of such a heap is {"cls":"Ref","kind":k,"alt":j,"texts":[name..]}.
+# --------------------------------------------------------------------------
+MULTI_NAME = "(ID | '.' | '/' | '::')+"
+
+
+def multi_grammar(case):
+    kinds = case["kinds"]
+    g = ["Model: " + BODY + ";", "Item: A | B | C;", "Named: A | B;",
+         "A: 'A' name=ID '{' " + BODY + " '}';", "B: 'B' name=ID '{' " + BODY + " '}';",
+         "C: 'C' '{' " + BODY + " '}';",
+         "Ref: " + " | ".join("R%d" % k for k in range(len(kinds))) + ";"]
+    for k, kd in enumerate(kinds):
+        places = []
+        for j, ri in enumerate(kd["alts"]):
+            rr = ("|" + render_expr(kd["rrel"])) if kd.get("rrel") else ""
+            ref = "[%s:FQN%d%s]" % (kd["cls"], ri, rr)
+            kw = ref_keyword({"kind": k, "alt": j})
+            places.append("'%s' %s%s ';'" % (kw, kd["attr"], ("+=" + ref + "[',']") if kd.get("many") else ("=" + ref)))
+        g.append("R%d: %s;" % (k, " | ".join(places)))
+    for i, ru in enumerate(case["rules"]):
+        g.append("FQN%d%s: %s;" % (i, ("[split='%s']" % ru["split"]) if ru.get("split") else "", MULTI_NAME))
+    return "\n".join(g) + "\n"
+
+
+def governing(case, k, j):
+    """(provider object id, expression, explicit delimiter) of the provider object that answers the
+    references of kind k written at place j; None: no RREL provider covers them"""
+    kd = case["kinds"][k]
+    if kd.get("rrel") is not None:
+        return "g|%d|%d" % (k, j), kd["rrel"], None  # one object per place in the grammar
+    reg = {pat: pi for pat, pi in case["reg"]}
+    for pat in ("R%d.%s" % (k, kd["attr"]), "*." + kd["attr"], "R%d.*" % k, "*.*"):
+        if pat in reg:
+            pv = case["provs"][reg[pat]]
+            # a registered string becomes an object of its own per pattern
+            return ("s|" + pat) if pv["how"] == "str" else ("o|%d" % reg[pat]), pv["expr"], pv.get("split")
+    return None
+
+
+def multi_calls(case):
+    """the references of a session in textual order"""
+    out = []
+    for mi, heap in enumerate(case["models"]):
+        for oi, (n, _) in enumerate(heap_list(heap)):
+            if n["cls"] != "Ref":
+                continue
+            kd = case["kinds"][n["kind"]]
+            gov = governing(case, n["kind"], n.get("alt", 0))
+            rule_split = case["rules"][kd["alts"][n.get("alt", 0)]].get("split")
+            for ti, t in enumerate(n["texts"]):
+                c = {"m": mi, "o": oi, "t": ti, "text": t, "cls": kd["cls"], "rule_split": rule_split}
+                if gov is not None:
+                    # the documented delimiter: the provider's own, else the one of the match
+                    # rule of this reference, else '.'
+                    c.update(inst=gov[0], expr=gov[1], explicit=gov[2], split=gov[2] or rule_split or ".")
+                out.append(c)
+    return out
+
+
+def ref_positions(heap):
+    """[(Ref object number, name index, line, column)] of the reference names in
+    render_body(heap, 0), 1-based as textX reports them"""
+    import re
+
+    nodes = [(i, n) for i, (n, _) in enumerate(heap_list(heap)) if n["cls"] == "Ref"]
+    out, k = [], 0
+    for ln, line in enumerate(render_body(heap, 0).split("\n"), 1):
+        st = line.lstrip()
+        if re.match(r"(ref|alt)\d+ ", st):
+            i, n = nodes[k]
+            k += 1
+            assert st.startswith(ref_keyword(n) + " ")
+            col = len(line) - len(st) + len(ref_keyword(n)) + 2
+            for ti, t in enumerate(n["texts"]):
+                out.append((i, ti, ln, col))
+                col += len(t) + 2
+    assert k == len(nodes)
+    return out
+
+
+def run_multi(case):
+    use_repo()
+    from textx import get_model, metamodel_from_str
+    from textx.exceptions import TextXSemanticError
+    from textx.scoping import rrel as R
+
+    out = {"models": []}
+    try:
+        mm = metamodel_from_str(multi_grammar(case))
+
+        def by_number(obj, attr, obj_ref):
+            return model_objects(get_model(obj))[int(obj_ref.obj_name)]
+
+        sp = {"*.r": by_number, "*.rs": by_number}
+        made = {}
+        for pat, pi in case["reg"]:
+            pv = case["provs"][pi]
+            etext = render_expr(pv["expr"])
+            if pv["how"] == "str":
+                sp[pat] = etext
+                continue
+            if pi not in made:
+                arg = etext if pv["how"] == "obj" else R.parse(etext)
+                made[pi] = (R.create_rrel_scope_provider(arg) if pv.get("split") is None
+                            else R.create_rrel_scope_provider(arg, split_string=pv["split"]))
+            sp[pat] = made[pi]
+        mm.register_scope_providers(sp)
+        trees = {}
+        for c in multi_calls(case):
+            key = c.get("inst")
+            if key is None or key in trees:
+                continue
+            kind, _, rest = key.partition("|")
+            if kind == "g":
+                k = int(rest.split("|")[0])
+                prov = mm["R%d" % k]._tx_attrs[case["kinds"][k]["attr"]].scope_provider
+            elif kind == "s":
+                prov = mm.scope_providers[rest]
+            else:
+                prov = made[int(rest)]
+            trees[key] = dump_tree(prov.rrel_tree)
+        out["trees"] = trees
+    except Exception as e:  # the language itself could not be built
+        out.update(res="error", type=type(e).__name__, msg=str(e)[:200])
+        return out
+    for heap in case["models"]:
+        try:
+            try:
+                model = mm.model_from_str(render_body(heap, 0))
+            except TextXSemanticError as e:
+                if "Unknown object" not in str(e):
+                    raise
+                at = [[i, ti] for i, ti, ln, col in ref_positions(heap) if (ln, col) == (e.line, e.col)]
+                if len(at) != 1:
+                    raise HeapMismatch(f"'Unknown object' at {e.line}:{e.col} is not at a reference name")
+                out["models"].append({"res": "failed", "at": at[0]})
+                continue
+            check_heap(case, model, mm, [], heap=heap)
+            objs = model_objects(model)
+            refs = []
+            for oi, (n, _) in enumerate(heap_list(heap)):
+                if n["cls"] != "Ref":
+                    continue
+                kd = case["kinds"][n["kind"]]
+                v = getattr(objs[oi], kd["attr"])
+                vals = list(v) if kd.get("many") else [v]
+                refs.append([oi, [describe(x._tx_obj, x._tx_path, objs, proxy=x) if isinstance(x, R.ReferenceProxy)
+                                  else describe(x, None, objs) for x in vals]])
+            out["models"].append({"res": "loaded", "refs": refs})
+        except HeapMismatch:
+            raise
+        except RecursionError:
+            out["models"].append({"res": "error", "type": "RecursionError", "msg": ""})
+        except Exception as e:  # any exception of the code under test is an observation
+            out["models"].append({"res": "error", "type": type(e).__name__, "msg": str(e)[:200]})
+    return out
+
+
+def multi_subcase(case, c):
+    """the reference `c` of a session as a single-reference case (for the statement's clauses)"""
+    return {"mode": "grammar", "heap": case["models"][c["m"]], "expr": c["expr"], "from": c["o"],
+            "name": c["text"], "split": c["split"], "cls": c["cls"]}
+
+
+def multi_observed(case, obs):
+    """[(call, observation of that reference)] for every reference whose answer was observed"""
+    out = []
+    calls = multi_calls(case)
+    for mi, mo in enumerate(obs["models"]):
+        mine = [c for c in calls if c["m"] == mi and "inst" in c]
+        if mo["res"] == "failed":
+            out += [(c, {"res": "none"}) for c in mine if [c["o"], c["t"]] == mo["at"]]
+        elif mo["res"] == "loaded":
+            got = {(oi, ti): d for oi, lst in mo["refs"] for ti, d in enumerate(lst)}
+            out += [(c, got.get((c["o"], c["t"]), {"res": "error", "type": "missing", "msg": "no value for this reference"}))
+                    for c in mine]
+    return out
+
+
+def check_multi(case, obs):
+    if obs.get("res") == "error":
+        return f"building the language raised {obs.get('type')}: {obs.get('msg')}"
+    for mi, mo in enumerate(obs["models"]):
+        if mo["res"] == "error":
+            return f"model {mi}: loading raised {mo.get('type')}: {mo.get('msg')}"
+    for c, d in multi_observed(case, obs):
+        f = check_property(multi_subcase(case, c), d)
+        if f:
+            return (f"model {c['m']}, reference {c['text']!r} of object {c['o']} (provider {c['inst']}: "
+                    f"{render_expr(c['expr'])}, delimiter {c['split']!r}, class {c['cls']}): {f}")
+    return None
+
+
+def gen_anchor_seq(rng):
+    """qualified-name style expressions ('packages*.classes', '^a.b', '(a,b)*.a'): name steps over
+    the containment lists, so that names of several parts resolve — from the model root (no lead:
+    the same names from every place of the model) or from the enclosing scopes ('^')"""
+    def step(mode="c"):
+        if rng.chance(0.25):
+            return {"k": "br", "seq": [{"lead": None, "elems": [{"k": "nav", "mode": mode, "name": a}]} for a in ("a", "b")]}
+        return {"k": "nav", "mode": mode, "name": rng.weighted([("a", 7), ("b", 3)])}
+
+    shape = rng.weighted([("chain", 4), ("star", 5), ("skip", 2)])
+    if shape == "chain":
+        elems = [step() for _ in range(rng.randint(2, 3))]
+    elif shape == "star":
+        elems = [{"k": "star", "e": step()}] + [step() for _ in range(rng.randint(1, 2))]
+    else:
+        elems = [{"k": "star", "e": step("t")}] + [step() for _ in range(2)]
+    seq = [{"lead": rng.weighted([(None, 6), ("^", 3), (2, 1)]), "elems": elems}]
+    if rng.chance(0.2):
+        seq.insert(rng.below(2), gen_path(rng, 1))
+    return seq
+
+
+def gen_multi_case(rng):
+    control = rng.chance(0.1)  # anything goes, single-delimiter languages included
+    nr = rng.weighted([(2, 6), (3, 4)])
+    if control:
+        rules = [{"split": rng.choice([None, ".", "/", "::"])} for _ in range(nr)]
+    else:  # pairwise different delimiters; '.' is the default or written out
+        rules = [{"split": (None if rng.chance(0.6) else ".") if x == "." else x} for x in rng.sample(SPLITS, nr)]
+    layout = rng.weighted([("star-attr", 5), ("cls-attr", 3), ("cls-star", 2), ("star-star", 2), ("overlap", 2)])
+    nk = rng.weighted([(1, 2), (2, 5), (3, 3)])
+    order = rng.shuffle(list(range(nr)))
+    one_attr = rng.chance(0.7)
+    kinds = []
+    for k in range(nk):
+        in_grammar = layout != "star-star" and k > 0 and rng.chance(0.2)
+        alts = [order[k % nr]]
+        if rng.chance(0.3) or (nk == 1 and not control):
+            # the attribute is assigned at two places, with different match rules
+            alts.append(rng.choice([i for i in range(nr) if i != alts[0]]))
+        kinds.append({"attr": "gref" if in_grammar else ("ref" if one_attr else rng.weighted([("ref", 5), ("other", 5)])),
+                      "cls": rng.weighted([("Item", 5), ("Named", 2), ("A", 2), ("B", 2)]),
+                      "many": rng.chance(0.15), "alts": alts, "rrel": {} if in_grammar else None})
+    # registrations for the kinds without RREL in the grammar
+    free = [k for k, kd in enumerate(kinds) if kd["rrel"] is None]
+    provs, reg = [], []
+
+    def prov():
+        how = rng.weighted([("str", 5), ("obj", 3), ("tree", 2)])
+        provs.append({"expr": None, "how": how,
+                      "split": rng.choice(SPLITS) if how != "str" and rng.chance(0.25) else None})
+        return len(provs) - 1
+
+    def bind(pats):
+        share = rng.chance(0.6)  # one provider object registered for all these patterns
+        shared = None
+        for pat in pats:
+            if shared is None or not share:
+                shared = prov()
+                if share and provs[shared]["how"] == "str":
+                    # (a string cannot be shared: every pattern gets an object of its own)
+                    provs[shared]["how"] = rng.choice(["obj", "tree"])
+            reg.append([pat, shared])
+
+    attrs = sorted({kinds[k]["attr"] for k in free})
+    if layout == "star-star":
+        bind(["*.*"])
+    elif layout == "cls-attr":
+        bind(["R%d.%s" % (k, kinds[k]["attr"]) for k in free])
+    elif layout == "cls-star":
+        bind(["R%d.*" % k for k in free])
+    else:
+        bind(["*." + a for a in attrs])
+        if layout == "overlap":  # a more specific registration for one kind wins
+            k = rng.choice(free)
+            reg.append([rng.choice(["R%d.%s" % (k, kinds[k]["attr"]), "R%d.*" % k]), prov()])
+    # models
+    models = []
+    for mi in range(rng.weighted([(1, 4), (2, 4), (3, 2)])):
+        root = gen_heap(rng, max_objs=10, deep=rng.chance(0.4))
+        holders = [n for n, _ in heap_list(root)]
+        k0 = rng.below(nk)
+        for i in range(rng.weighted([(1, 1), (2, 4), (3, 3), (4, 2)])):
+            k = (k0 + i) % nk if rng.chance(0.8) else rng.below(nk)
+            rng.choice(holders).setdefault("refs", []).append(
+                {"cls": "Ref", "kind": k, "alt": rng.below(len(kinds[k]["alts"])),
+                 "texts": [None] * (rng.randint(1, 3) if kinds[k]["many"] else 1)})
+        add_refs(rng, root, back=0.2)
+        models.append(root)
+    case = {"mode": "multi", "rules": rules, "kinds": kinds, "provs": provs, "reg": reg, "models": models}
+    # expressions: per provider object one that serves its references (several name parts, if possible)
+    names = all_names()
+    for kd in kinds:
+        if kd["rrel"] is not None:
+            kd["rrel"] = {"flags": "", "seq": [{"lead": None, "elems": [{"k": "nav", "mode": "c", "name": "a"}]}]}
+    for pv in provs:
+        pv["expr"] = {"flags": "", "seq": [{"lead": None, "elems": [{"k": "nav", "mode": "c", "name": "a"}]}]}
+    owners = [kd["rrel"] for kd in kinds if kd["rrel"] is not None] + [pv["expr"] for pv in provs]
+    goods = {}
+    for ex in owners:
+        served = sorted({(c["m"], c["o"], c["cls"]) for c in multi_calls(case) if c.get("expr") is ex})
+        best = None
+        for attempt in range(10):
+            seq = rng.weighted([(gen_anchor_seq, 5), (gen_seq, 3), (gen_focus_seq, 2)])(rng)
+            per, score = {}, 0
+            for key in served:
+                mi, oi, cls = key
+                per[key] = [c for c in names if Spec(models[mi], c).targets(seq, oi, cls)]
+                score += 2 if any(len(c) > 1 for c in per[key]) else (1 if per[key] else 0)
+            if best is None or score > best[0]:
+                best = (score, seq, per)
+            if score == 2 * len(served):
+                break
+        ex["seq"] = best[1]
+        ex["flags"] = rng.weighted([("", 7), ("p", 3)])
+        goods[id(ex)] = best[2]
+    # reference names
+    for c in multi_calls(case):
+        node = heap_list(models[c["m"]])[c["o"]][0]
+        good = goods.get(id(c.get("expr")), {}).get((c["m"], c["o"], c["cls"]), [])
+        if good and rng.chance(0.93):
+            good = sorted(rng.shuffle(good), key=lambda x: -len(x))
+            ns = good[rng.below(min(len(good), 4))]
+        else:
+            ns = rng.choice(names)
+        sep = c.get("split", ".")
+        text = sep.join(ns)
+        if rng.chance(0.08):  # empty parts are dropped
+            text = sep + text.replace(sep, sep + sep, 1)
+        elif rng.chance(0.03) and len(ns) > 1:  # another rule's delimiter: one single part here
+            text = rng.choice([x for x in SPLITS if x != sep]).join(ns)
+        node["texts"][c["t"]] = text
+    return case
+
+
+def _without(heap, victim):
+    """the heap without object `victim` (and what it contains), references renumbered"""
+    root = _clone(heap)
+    objs = heap_list(root)
+    for i, (n, _) in enumerate(objs):
+        n["_old"] = i
+    n, p = objs[victim]
+    pn = objs[p][0]
+    if pn.get("s") is n:
+        pn["s"] = None
+    for k in ("a", "b", "refs"):
+        if any(c is n for c in pn.get(k) or []):
+            pn[k] = [c for c in pn[k] if c is not n]
+    if not (root.get("a") or root.get("b") or root.get("s") is not None or root.get("refs")):
+        return None  # (an empty model text is not a model object at all)
+    return _renumber({"from": 0}, root, None)["heap"]
+
+
+def shrink_multi(case):
+    ms = case["models"]
+
+    def put(i, h):
+        return dict(case, models=ms[:i] + [h] + ms[i + 1:])
+
+    if len(ms) > 1:
+        for i in range(len(ms)):
+            yield dict(case, models=ms[:i] + ms[i + 1:])
+    for i, h in enumerate(ms):
+        objs = heap_list(h)
+        for v in range(1, len(objs)):  # reference objects first
+            if objs[v][0]["cls"] == "Ref":
+                h2 = _without(h, v)
+                if h2 is not None:
+                    yield put(i, h2)
+        for v in range(1, len(objs)):
+            if objs[v][0]["cls"] != "Ref":
+                h2 = _without(h, v)
+                if h2 is not None:
+                    yield put(i, h2)
+        for v, (n, _) in enumerate(objs):
+            if n["cls"] == "Ref" and len(n["texts"]) > 1:
+                for j in range(len(n["texts"])):
+                    h2 = _clone(h)
+                    del heap_list(h2)[v][0]["texts"][j]
+                    yield put(i, h2)
+            if n.get("r") is not None:
+                h2 = _clone(h)
+                heap_list(h2)[v][0]["r"] = None
+                yield put(i, h2)
+            if n.get("rs"):
+                h2 = _clone(h)
+                heap_list(h2)[v][0]["rs"] = []
+                yield put(i, h2)
+
+
+# --------------------------------------------------------------------------
 # the property, decided on an observation
 # --------------------------------------------------------------------------
 def check_property(case, obs):
+    if case.get("mode") == "multi":
+        return check_multi(case, obs)
     ns = case.get("as_list")
     if ns is None:
         ns = split_name(case["name"], case.get("split", "."))
@@ -1156,6 +1579,9 @@ def shrink_elem(e):
 
 
 def shrink_case(case):
+    if case["mode"] == "multi":
+        yield from shrink_multi(case)
+        return
     yield from shrink_heap(case)
     for s in shrink_seq(case["expr"]["seq"]):
         yield dict(case, expr=dict(case["expr"], seq=s))
@@ -1233,6 +1659,9 @@ class Prop(Check):
         "Rrel.C11_path",
         "Rrel.C11_fuel_stable",
         "Rrel.C11_split",
+        "Rrel.C11_history",
+        "Rrel.C11_delim",
+        "Rrel.C11_provider",
     ]
     DRIVER = "Drivers/Rrel.lean"
     QUICK_CASES = 500
@@ -1246,16 +1675,28 @@ class Prop(Check):
             "steps (parent(T), '(..)', '(...)', '(..)*', '~ref', '~child', alternatives / repetitions of those), the reference "
             "name chosen by where the target lies relative to the named objects (the last one / a fresh object / one named earlier / "
             "a same-named other object / no named object at all); observed: outcome, target, _tx_path, and the object that attribute "
-            "access through the proxy reaches; non-trivial = the reference resolves")
+            "access through the proxy reaches; plus 12 % sessions (histories of one provider object): a language with 2..3 match "
+            "rules of different name delimiters (rule parameter split none / '.' / '/' / '::'), 1..3 reference rules (attribute name, "
+            "target class, single / list valued, the attribute assigned at one or two places with different match rules, RREL in the "
+            "grammar or registered), registrations '*.attr' / 'Rule.attr' / 'Rule.*' / '*.*' / overlapping, as RREL string or as "
+            "provider object made from a string or a parsed tree (one object for several patterns; with / without explicit "
+            "split_string), 1..3 models loaded one after the other with the same meta-model and 1..4 reference objects each, names of "
+            "several parts that mostly resolve; observed per model: target and path of every reference, or which reference was "
+            "reported unknown; non-trivial = the reference (a reference of the session) resolves")
     MODELLED = ("hand-modelled: textx/scoping/rrel.py get_next_matches of RRELBase/Navigation/Parent/Dots/Brackets/Sequence/"
                 "ZeroOrMore/Path, the visited set of find_object_with_path, find / ReferenceProxy path, the '+m:' start list, "
                 "Postponed, name splitting (Rrel.eval in CPS with the visited set threaded, Rrel.find, Rrel.proxyPath, "
-                "Rrel.splitName); tie X: outcome, resolved object and proxy path on the parsed expression tree (node "
+                "Rrel.splitName); the provider object RREL.__call__ with its delimiter deduction (explicit split_string, else the split "
+                "parameter of the match rule of the reference at hand, else '.') and histories of calls (Rrel.Provider.call / run, "
+                "driver op session: every provider object is threaded through its calls in textual order); "
+                "tie X: outcome, resolved object and proxy path on the parsed expression tree (node "
                 "identities from the real parser) vs rrel.find, grammar-attached RREL and registered RREL strings; the heap "
                 "description the model gets is cross-checked against the loaded objects; not modelled: prevent_doubles "
                 "(unobservable, see Rrel.lean), navigation into primitive-valued attributes, RRELImportURI model loading, "
                 "local_models of a multi-file repository (only builtin models feed the '+m:' list), textx_isinstance itself "
-                "(a parameter of the model)")
+                "(a parameter of the model), the choice of the provider object for a reference (grammar RREL before registration, "
+                "'Rule.attr' before '*.attr' before 'Rule.*' before '*.*': taken from the documentation by the harness), the order in "
+                "which textX resolves the references of a model and its retry of Postponed ones (C09)")
     ASSUMPTIONS = [
         "navigated attributes hold objects, lists of objects or None (not primitives); parent chains are acyclic",
         "node identities of one expression tree are pairwise distinct (Python object identity)",
@@ -1263,6 +1704,7 @@ class Prop(Check):
     ]
     FUEL = 1000000
     PROXY_SHARE = 0.15  # gen_proxy_case cases per general case
+    MULTI_SHARE = 0.12  # gen_multi_case sessions per general case
 
     def gen(self, rng, n, tier):
         k = produced = 0
@@ -1282,6 +1724,9 @@ class Prop(Check):
         # '+p:' territory (appended, so that the general cases of a seed stay what they were)
         for k in range(int(n * self.PROXY_SHARE)):
             yield gen_proxy_case(rng.fork("p" + str(k)))
+        # histories: provider objects serving many references, models loaded one after the other
+        for k in range(int(n * self.MULTI_SHARE)):
+            yield gen_multi_case(rng.fork("m" + str(k)))
 
     def impl(self, case):
         return run_case(case)
@@ -1291,6 +1736,8 @@ class Prop(Check):
         return ns if ns is not None else split_name(case["name"], case.get("split", "."))
 
     def model_req(self, case, obs):
+        if case["mode"] == "multi":
+            return self.multi_req(case, obs)
         if "tree" not in obs:
             return None
         req = {"op": "find", "unres": case.get("unres") or [], "extra": [], "top": obs["tree"]["top"], "o": case["from"],
@@ -1306,7 +1753,54 @@ class Prop(Check):
             req["extra"] = roots
         return req
 
+    def multi_req(self, case, obs):
+        if "trees" not in obs or obs.get("res") == "error":
+            return None
+        calls = [c for c in multi_calls(case) if "inst" in c]
+        insts = []
+        for c in calls:
+            if c["inst"] not in insts:
+                insts.append(c["inst"])
+        explicit = {c["inst"]: c["explicit"] for c in calls}
+        heaps = []
+        for h in case["models"]:
+            d = model_heap(h)
+            d.pop("extra_roots")
+            d.update(unres=[], extra=[])
+            heaps.append(d)
+        return {"op": "session", "fuel": self.FUEL,
+                "providers": [{"top": obs["trees"][i]["top"], "split": explicit[i], "p": obs["trees"][i]["p"]} for i in insts],
+                "heaps": heaps,
+                "calls": [{"prov": insts.index(c["inst"]), "h": c["m"], "o": c["o"], "text": c["text"],
+                           "rule_split": c["rule_split"], "cls": c["cls"]} for c in calls]}
+
+    def multi_compare(self, case, obs, out):
+        if "err" in out:
+            return f"model did not evaluate the request: {out}"
+        calls = [c for c in multi_calls(case) if "inst" in c]
+        if len(out.get("results", [])) != len(calls):
+            return f"model answered {len(out.get('results', []))} of {len(calls)} references"
+        model = {(c["m"], c["o"], c["t"]): r for c, r in zip(calls, out["results"])}
+        for mi, mo in enumerate(obs["models"]):
+            if mo["res"] == "error":
+                return f"model {mi}: implementation raised {mo.get('type')} ({mo.get('msg')})"
+        for c, d in multi_observed(case, obs):
+            r = model[(c["m"], c["o"], c["t"])]
+            where = f"model {c['m']}, reference {c['text']!r} of object {c['o']} (provider {c['inst']})"
+            if r["sep"] != c["split"]:
+                return f"{where}: delimiter differs: documented {c['split']!r} model {r['sep']!r}"
+            if d.get("res") != r.get("res"):
+                return f"{where}: outcome differs: impl {d.get('res')} {d.get('obj')} model {r.get('res')} {r.get('obj')}"
+            if r["res"] == "found":
+                if d["obj"] != r["obj"]:
+                    return f"{where}: resolved object differs: impl {d['obj']} model {r['obj']}"
+                if d.get("path") is not None and d["path"] != r["proxy"]:
+                    return f"{where}: proxy path differs: impl {d['path']} model {r['proxy']}"
+        return None
+
     def compare(self, case, obs, out):
+        if case["mode"] == "multi":
+            return self.multi_compare(case, obs, out)
         if "err" in out:
             return f"model did not evaluate the request: {out}"
         if obs.get("res") == "error":
@@ -1324,12 +1818,20 @@ class Prop(Check):
         return check_property(case, obs)
 
     def nontrivial(self, case, obs):
+        if case["mode"] == "multi":
+            return any(d.get("res") == "found" for _, d in multi_observed(case, obs))
         return obs.get("res") == "found"
 
     def shrink(self, case):
         return shrink_case(case)
 
     def sample_view(self, case, obs):
+        if case["mode"] == "multi":
+            return {"mode": "multi", "grammar": multi_grammar(case),
+                    "registered": [[pat, case["provs"][pi]["how"], render_expr(case["provs"][pi]["expr"]),
+                                    case["provs"][pi].get("split")] for pat, pi in case["reg"]],
+                    "model_texts": [render_body(h, 0) for h in case["models"]],
+                    "impl": obs.get("models")}
         return {"mode": case["mode"], "expr": obs.get("expr"), "model_text": render_body(case["heap"], 0),
                 "builtin_models": [render_body(t, 0) for t in case.get("extra") or []],
                 "unresolved": case.get("unres") or [],
@@ -1339,4 +1841,5 @@ class Prop(Check):
     def extra_search(self, rng, tier, broken):
         n = 800 if tier == "quick" else 20000
         return [gen_case(rng.fork("x" + str(k))) for k in range(n)] + \
-            [gen_proxy_case(rng.fork("xp" + str(k))) for k in range(int(n * self.PROXY_SHARE))]
+            [gen_proxy_case(rng.fork("xp" + str(k))) for k in range(int(n * self.PROXY_SHARE))] + \
+            [gen_multi_case(rng.fork("xm" + str(k))) for k in range(int(n * self.MULTI_SHARE))]
